@@ -857,3 +857,138 @@ def r_alias_guard(cx):
 
 def _fzero(t):
     return t[0] == "const" and isinstance(t[2], tuple) and t[2][0] == "float" and float(t[2][1]) == 0.0
+
+
+# ---------------------------------------------------------------------------------------------------------------------
+# R-FLAG-COVERS (C07): the `dynamic` / `rotated` predicates look at everything the flagged code uses
+
+@rule("R-FLAG-COVERS", ["C07"])
+def r_flag_covers(cx):
+    """helmert's apply function evaluates the time dependent parameters (T + dt*DT, R + dt*DR, S + dt*DS) only under the
+    flag `dynamic`, and rotates only under `rotated`; the constructor sets these flags from a predicate over the rates /
+    angles. The predicate must look at every stored quantity that the flagged code reads: the decision to insert the
+    flag mentions, for each key read under the flag at apply time, the value the constructor stores under that key -
+    otherwise a definition whose only rate is the scale trend `ds` is treated as static."""
+    import guards
+    import slicing
+    from rules.keysrules import flag_tests
+    ctor = cx.f.fn("inner_op::helmert::new")
+    apply_fns = [n for n in cx.f.lib["fns"] if n.startswith("inner_op::helmert::") and "::tests" not in n and n != "inner_op::helmert::new"]
+    stored = {}
+    for (bb, m, key, val) in K.inserts_in(cx.f, ctor):
+        if val is not None:
+            v = mir.strip_refs(val)
+            for _ in range(4):      # Vec::from(array), array.to_vec(), .into(), .clone()
+                if v[0] == "call" and isinstance(v[1], str) and v[1].rsplit("::", 1)[-1] in ("from", "to_vec", "into", "clone", "to_owned") and len(v[2]) == 1:
+                    v = mir.strip_refs(v[2][0])
+            stored.setdefault(key, []).append(v)
+    flag_inserts = {}
+    for bb, t in ctor.calls():
+        c = ctor.callee(t) or ""
+        if c.endswith("BTreeSet::<T, A>::insert"):
+            a = ctor.arg_terms(bb)
+            if K.receiver_map(cx.f, a[0]) == "boolean":
+                k = K._const_key(a[1])
+                if k:
+                    flag_inserts.setdefault(k, []).append(bb)
+    n = 0
+    for flag in ("dynamic", "rotated"):
+        # keys used under the flag at apply time
+        used = set()
+        for fn in apply_fns:
+            f = cx.f.fn(fn)
+            tests = []
+            for sb in sorted(f.reachable()):
+                st = f.term(sb)
+                if st["k"] != "switch":
+                    continue
+                dd = mir.strip_refs(f.operand(st["discr"], f.end_point(sb)))
+                neg = False
+                while dd[0] == "un" and dd[1] == "Not":
+                    dd, neg = mir.strip_refs(dd[2]), not neg
+                if dd[0] == "call" and dd[1] == K.PP + "::boolean" and len(dd[2]) > 1 and K._const_key(dd[2][1]) == flag:
+                    zero = [tb for vv, tb in st["targets"] if vv == 0]
+                    tests.append(((zero[0] if zero else None) if neg else st["otherwise"], flag))
+            tests = [x for x in tests if x[0] is not None]
+            if not tests:
+                continue
+            reads = {}
+            for r in K.find_reads(cx.f, f):
+                reads[r.bb] = r.key
+            for succ, _ in tests:
+                dom = [b for b in f.reachable() if f.dominates(succ, b)]
+                for b in dom:
+                    for i, s in enumerate(f.stmts(b)):
+                        if s["k"] != "assign":
+                            continue
+                        v = f.rvalue(s["rv"], (b, i))
+
+                        def vis(y):
+                            if y[0] == "call" and isinstance(y[1], str) and y[1].startswith(K.PP + "::") and len(y[2]) > 1:
+                                kk = K._const_key(y[2][1])
+                                if kk and y[1].rsplit("::", 1)[-1] in ("series", "real"):
+                                    used.add(kk)
+                            return True
+                        mir.walk(v, vis)
+        rate_keys = sorted(k for k in used if k in stored and k.startswith("D"))
+        if flag == "rotated":
+            rate_keys = sorted(k for k in used if k in stored and k in ("R", "DR"))
+        if flag not in flag_inserts:
+            cx.ob("R-FLAG-COVERS", "helmert/%s" % flag, False, "anchor-missing: helmert::new never sets the flag `%s`" % flag,
+                  cx.where(ctor.d["span"]))
+            continue
+        cd = slicing.control_deps(ctor)
+        ats = set()
+        for ib in flag_inserts[flag]:
+            seen, work = set(), [ib]
+            while work:
+                x = work.pop()
+                for a in cd.get(x, ()):
+                    if a in seen:
+                        continue
+                    seen.add(a)
+                    work.append(a)
+                    t = ctor.term(a)
+                    if t["k"] == "switch":
+                        ats |= guards.atoms(ctor, ctor.operand(t["discr"], ctor.end_point(a)))
+        for key in rate_keys:
+            n += 1
+            vals = stored[key]
+            hit = False
+            for at in ats:
+                for v in vals:
+                    for vv in _variants(v):
+                        if _mentions_value(at, vv):
+                            hit = True
+            cx.ob("R-FLAG-COVERS", "helmert/%s/%s" % (flag, key), hit,
+                  "the decision to set `%s` looks at the value stored as %s" % (flag, key) if hit else
+                  "helmert::new decides `%s` without looking at %s, which the apply function uses under that flag: a "
+                  "definition whose only time dependence is %s is treated as static (its rate is ignored)" % (flag, key, key),
+                  cx.where(ctor.term(flag_inserts[flag][0])["span"]))
+    cx.count("R-FLAG-COVERS", "covered_keys", n)
+
+
+def _mentions_value(t, v):
+    hit = []
+
+    def vis(y):
+        if mir.strip_refs(y) == v:
+            hit.append(1)
+            return False
+        return not hit
+    mir.walk(t, vis)
+    return bool(hit)
+
+
+def _variants(v, depth=0):
+    """the value and the earlier values it was built from (arms of a join, the base of an element update)"""
+    v = mir.strip_refs(v)
+    out = [v]
+    if depth > 6:
+        return out
+    if v[0] == "phi":
+        for o in v[2]:
+            out += _variants(o, depth + 1)
+    elif v[0] in ("upd", "mod"):
+        out += _variants(v[1], depth + 1)
+    return out
